@@ -469,6 +469,11 @@ pub fn child(args: &[String]) -> i32 {
 }
 
 pub fn run(ctx: &Ctx) {
+    // the workload does not draw from the case rng (estimators, seeds and schedules are enumerated):
+    // further rounds would repeat it verbatim
+    if ctx.round > 0 {
+        return;
+    }
     ctx.set_rule(
         "every estimator of the zoo and of the serialisable value kinds, plus large parallel k-means / GMM fits, \
          hash-order sensitive cases (tied tree leaves, tied naive-Bayes posteriors, hierarchical label ids, weighted \
